@@ -101,8 +101,10 @@ impl ClientHello {
 
 impl Default for ClientHello {
     fn default() -> Self {
-        const CAPABILITIES: &[Capability] =
-            &[Capability::Base(Base::V1_0), Capability::Base(Base::V1_1)];
+        // Only end-of-message framing (RFC 6242 section 4.3) is implemented, so only
+        // `:base:1.0` may be advertised: negotiating `:base:1.1` would oblige us to use
+        // chunked framing (RFC 6242 section 4.2) after the hello exchange.
+        const CAPABILITIES: &[Capability] = &[Capability::Base(Base::V1_0)];
         Self::new(CAPABILITIES)
     }
 }
